@@ -281,6 +281,9 @@ func mkSampler(k int) zerolog.Sampler {
 
 // refLogger builds, from nothing, the logger the model describes.
 func (r *c5Run) refLogger(m c5Model, w io.Writer) zerolog.Logger {
+	if m.sink < 0 {
+		w = nil // a logger whose events go nowhere
+	}
 	c := zerolog.New(w).With()
 	for _, g := range m.fields {
 		if g == nil {
@@ -564,6 +567,13 @@ func (r *c5Run) derive(p *c5Node) *c5Node {
 		}
 		return r.addNode(p.lg.Hook(hs...), m, fmt.Sprintf("n%d.Hook(x%d)", p.id, k))
 	case 4:
+		if ch.Chance(1, 5) {
+			// Output(nil): the events go nowhere, everything else of the logger stays (a
+			// descendant given a writer again logs with the full derivation)
+			m.sink = -1
+			zsim.Probe("output_nil")
+			return r.addNode(p.lg.Output(nil), m, fmt.Sprintf("n%d.Output(nil)", p.id))
+		}
 		m.sink = ch.Intn(len(r.sinks))
 		return r.addNode(p.lg.Output(r.sinks[m.sink]), m, fmt.Sprintf("n%d.Output(sink%d)", p.id, m.sink))
 	case 5:
